@@ -35,6 +35,7 @@ type c15MsgCase struct {
 	An     []c15RR `json:"answer"`
 	Ns     []c15RR `json:"authority"`
 	Ar     []c15RR `json:"additional"`
+	Repeat bool    `json:"repeat,omitempty"` // the deepest name of an enumerated chain is written a second time (a bare pointer)
 	Nested int     `json:"nested,omitempty"` // informational: length of the longest chain name_k = label_k + name_(k-1) the generator built
 	Bulk   [4]int  `json:"bulk,omitempty"`   // further cheap entries appended to question / answer / authority / additional (root name, TXT IN, empty RDATA)
 }
@@ -182,6 +183,9 @@ func c15MsgCheck(t vh.Fataler, rec *vh.Rec, c c15MsgCase) {
 		return
 	}
 	classes := []string{}
+	if c.Nested == 127 && c.Repeat {
+		classes = append(classes, "nested=127+repeat")
+	}
 	if c.Nested == 127 {
 		classes = append(classes, "nested=127")
 	}
@@ -411,9 +415,9 @@ func c15MsgGen(rt *rapid.T) c15MsgCase {
 }
 
 func TestVerif_C15_messages(t *testing.T) {
-	rec := vh.NewRec("C15", "messages", "section counts of 65535 / 65536 / 65537 entries in each of the four sections (enumerated: 65535 must round-trip, more must be refused with an error) and nested chains of every depth 2-127 (enumerated), then rapid: messages of 0-40 entries spread over the four sections; names are 0-3 labels from a pool of 1-5 labels in front of a suffix of a common base (shared suffixes => compression pointers), case-flipped copies of earlier names, the root, or nested chains name_k = label+name_(k-1) of up to 40 links; types/classes/TTLs from boundary values; RDATA of 0/1/4/17/255/256 bytes and rarely 16400 (later names sit beyond the 14-bit pointer range), 65535 or 65536 bytes. Oracle: WireFormat returned an error, or MessageFromWireFormat(WireFormat(m)) == m field by field. Non-trivial = at least one compression pointer was emitted (wire size < uncompressed size) or an RDATA beyond 65535; distinct by case")
+	rec := vh.NewRec("C15", "messages", "section counts of 65535 / 65536 / 65537 entries in each of the four sections (enumerated: 65535 must round-trip, more must be refused with an error) and nested chains of every depth 2-127, each also with its deepest name written a second time (a bare pointer: depth pointers to follow; enumerated), then rapid: messages of 0-40 entries spread over the four sections; names are 0-3 labels from a pool of 1-5 labels in front of a suffix of a common base (shared suffixes => compression pointers), case-flipped copies of earlier names, the root, or nested chains name_k = label+name_(k-1) of up to 40 links; types/classes/TTLs from boundary values; RDATA of 0/1/4/17/255/256 bytes and rarely 16400 (later names sit beyond the 14-bit pointer range), 65535 or 65536 bytes. Oracle: WireFormat returned an error, or MessageFromWireFormat(WireFormat(m)) == m field by field. Non-trivial = at least one compression pointer was emitted (wire size < uncompressed size) or an RDATA beyond 65535; distinct by case")
 	defer rec.Flush()
-	rec.Require("ok", "compressed", "nested<12", "nested>=12", "nested=127", "rdlength>65535", "message>16383",
+	rec.Require("ok", "compressed", "nested<12", "nested>=12", "nested=127", "nested=127+repeat", "rdlength>65535", "message>16383",
 		"question-count=65535", "answer-count=65535", "authority-count=65535", "additional-count=65535", "question-count>65535:rejected", "answer-count>65535:rejected", "authority-count>65535:rejected", "additional-count>65535:rejected")
 	if p := vh.ReplayFile(); p != "" {
 		var c c15MsgCase
@@ -465,6 +469,14 @@ func TestVerif_C15_messages(t *testing.T) {
 			}
 		}
 		c15MsgCheck(t, rec, c)
+		// the same chain with its deepest name written once more (added after a round-8 seed): the
+		// repeat is a bare pointer to name_depth, so reading it follows `depth` pointers - one more
+		// than any name of the chain itself; depth 127 is the longest chain the encoder can emit
+		c2 := c
+		c2.ID = uint16(1000 + depth)
+		c2.Repeat = true
+		c2.Ar = append([]c15RR{}, c15RR{Name: append([]vh.Hex{}, n...), Type: 16, Class: 1, TTL: 60, DataLen: 1})
+		c15MsgCheck(t, rec, c2)
 	}
 	rapid.Check(t, func(rt *rapid.T) { c15MsgCheck(rt, rec, c15MsgGen(rt)) })
 }
